@@ -100,8 +100,19 @@ def regenerate(ctx):
 
 
 # ------------------------------------------------------------------------------------------ workload
-def make_jobs(ctx, n):
-    """n jobs on DIFFERENT programs (different types in play => different per-module tables), ops mixed"""
+def make_jobs(ctx, n, h):
+    """n jobs on DIFFERENT programs (different types in play => different per-module tables), ops mixed.
+    Candidates are pre-screened sequentially: programs the front end rejects (several matrix programs do not parse in WaGo
+    mode) exercise little, so at most two of them are kept (the error path is API behaviour too)."""
+    cand = _candidates(ctx, 2 * n + 6)
+    _, out, _ = ctx.run_bin(h, ["0", "0", "0", "once"], "\n".join("%s %s" % j for j in cand) + "\n", timeout=3000)
+    base = parse_run(out)["base"]
+    good = [j for i, j in enumerate(cand) if base.get(i, "").startswith("ok")]
+    bad = [j for i, j in enumerate(cand) if not base.get(i, "").startswith("ok")]
+    return (good[:max(0, n - 2)] + bad[:2] + good[max(0, n - 2):])[:n]
+
+
+def _candidates(ctx, n):
     from gen import matrix
     d = os.path.join(ctx.tmp, "src")
     os.makedirs(d, exist_ok=True)
@@ -240,7 +251,7 @@ def run(ctx):
         runs = [("free", G, iters, s, jobs) for s in seeds]
     else:
         njobs = 18 if quick else 60
-        jobs = make_jobs(ctx, njobs)
+        jobs = make_jobs(ctx, njobs, h)
         G, iters = (8, 3) if quick else (16, 8)
         seeds = [ctx.rng.randrange(1 << 30) for _ in range(2 if quick else 8)]
         runs = [("free", G, iters, s, jobs) for s in seeds]
